@@ -10,6 +10,7 @@ import StepModel.P21.FloatDigits
 import StepModel.P21.AggrLemmas
 import StepModel.P21.RtsLemmas
 import StepModel.P21.RawAggrLemmas
+import StepModel.P21.RawStrLemmas
 import StepModel.Generated.P21RWGen
 import StepModel.Generated.P21LexGen
 /-!
@@ -3494,6 +3495,53 @@ theorem C09_aggr_nested_witness :
       rcases he with rfl | rfl
       · exact ⟨[49, 44, 50], hR1, rfl, Seps.blanks [] (by simp), rfl, rfl⟩
       · exact ⟨[51, 44, 40, 52, 41], hR2, rfl, Seps.blanks [] (by simp), rfl, rfl⟩) [] true [44]
+  simpa [renderQ] using h
+
+/-! … with string literals inside the groups (`RawS`): `PushPastImbedAggr` steps over a literal of the string grammar with
+`GetLiteralStr`, so parentheses, commas and semicolons *inside* a literal do not count -/
+
+/-- `SCLundefined::STEPread` on a balanced group that may contain string literals: the text, verbatim -/
+theorem C09_nested_raw_text_verbatim_strings (lex : LexCfg) (stop : Bool) (u : List Byte) (hu : RawS u) (l0 rest : List Byte)
+    (d : Byte) (sk : Bool) (hd : d = 44 ∨ d = 41) :
+    undefRead lex stop (G l0 (40 :: (u ++ 41 :: d :: rest)) sk) =
+      .ok (40 :: (u ++ [41]), G (41 :: (u.reverse ++ 40 :: l0)) (d :: rest) sk, P21.Sev.null) :=
+  undefRead_rawS lex stop u hu l0 rest d sk hd
+
+/-- aggregate of aggregates whose groups may contain string literals, accept -/
+theorem C09_aggr_nested_accept_strings {F} (env : Env F) (hagg : env.cfg.aggrSkipsComments = true) (es : List (ElemQ F))
+    (hne : es ≠ [])
+    (hes : ∀ e ∈ es, ∃ u, RawS u ∧ e.tok = 40 :: (u ++ [41]) ∧ Seps e.before ∧ e.after = [] ∧ e.val = .atom (.undef e.tok))
+    (l : List Byte) (sk : Bool) (rest : List Byte) :
+    aggrRead env .generic (G l (40 :: (renderQ es ++ rest)) sk) =
+      .ok (.null, some (es.map (·.val)), G ((40 :: renderQ es).reverse ++ l) rest sk) := by
+  have := C09_aggr_accept env hagg .generic id (fun _ => rfl) es hne (by
+    intro e he
+    obtain ⟨u, hu, h1, h2, h3, h4⟩ := hes e he
+    obtain ⟨tok, before, after, val⟩ := e
+    simp only at h1 h2 h3 h4
+    subst h1 h3 h4
+    exact ElemReads.genericS env hagg u before hu h2) l sk rest
+  simpa using this
+
+/-- `((')';',1))` — a group holding the literal `')';'` (a `)` and a `;` inside apostrophes) and `1` — is stored as the text
+    `(')';',1)` (an instance of the theorem, regenerated configuration) -/
+theorem C09_aggr_nested_string_witness :
+    aggrRead sampleEnv .generic (G [] [40, 40, 39, 41, 59, 39, 44, 49, 41, 41, 44] true) =
+      .ok (.null, some [.atom (.undef [40, 39, 41, 59, 39, 44, 49, 41])],
+        G [41, 41, 49, 44, 39, 59, 41, 39, 40, 40] [44] true) := by
+  have p : ∀ c : Byte, c ≠ 40 → c ≠ 41 → c ≠ 39 → c ≠ 59 → plainByte c := fun _ a b c d => ⟨a, b, c, d⟩
+  have hb : StringBody [41, 59] := .nonq (by decide) (.nonq (by decide) .nil)
+  have hR : RawS [39, 41, 59, 39, 44, 49] :=
+    .str [41, 59] [44, 49] hb (by decide)
+      (.plain 44 _ (p 44 (by decide) (by decide) (by decide) (by decide))
+        (.plain 49 _ (p 49 (by decide) (by decide) (by decide) (by decide)) .nil))
+  have h := C09_aggr_nested_accept_strings sampleEnv (by decide)
+    [⟨[40, 39, 41, 59, 39, 44, 49, 41], [], [], .atom (.undef [40, 39, 41, 59, 39, 44, 49, 41])⟩] (by simp)
+    (by
+      intro e he
+      simp only [List.mem_cons, List.mem_nil_iff, or_false] at he
+      subst he
+      exact ⟨[39, 41, 59, 39, 44, 49], hR, rfl, Seps.blanks [] (by simp), rfl, rfl⟩) [] true [44]
   simpa [renderQ] using h
 
 end Aggregates
